@@ -90,6 +90,7 @@ def _mk_detector(ctx, ci, it, mode, inverse, components=COMPS, extra=None):
         "wave_characters": wcs,
         "scaling_mode": mode,
         "_window_at_time_step_arr": SymVec("window", Rat.atom("T")),
+        "_is_on_at_time_step_arr": SymVec("is_on", Rat.atom("T")),  # the on/off table is not the window: reading it instead shows up as a different atom
         "_window_sum": Rat.atom("WS"),
         "_dft_stride": Rat.atom("stride"),
         "components": tuple(components),
